@@ -96,8 +96,8 @@ Record env := mkEnv {
   name_slots : list (string * string);    (* Globals.nicknames_and_tables                 *)
   hist_names : list (string * string);    (* nickname -> table map handed to RowHistory     *)
   hist_tables : list string;              (* Interpreter.tables_to_keep_history_for         *)
-  rr_ok : bool                            (* false: a nickname of the recipe names two tables or
-                                             is also a table name - random_reference not modelled *)
+  rr_ok : bool                            (* false: a nickname of the recipe names two tables -
+                                             random_reference not modelled                    *)
 }.
 
 (* ------------------------------------------------------------------ association lists *)
@@ -625,21 +625,12 @@ Definition count_of (v : value) : result Z :=
   | VNull | VRow _ | VSlot _ | VUndef | VRef _ _ => dge "count"
   end.
 
-Definition nick_maps_to (h : rh) (n table : string) : bool :=
-  match lookupS n (n2t h) with Some t => String.eqb t table | None => false end.
-
-(* RuntimeContext.remember_row, history part: rows of tables that some random_reference names *)
+(* RuntimeContext.remember_row, history part: rows of tables that some random_reference names
+   (nicknames are resolved to tables up front) *)
 Definition remember_history (e : env) (s : st) (table : string) (nick : option string) (id : Z) : result st :=
-  let in_hist (x : string) := existsb (String.eqb x) (hist_tables e) in
-  if in_hist table then
-    (* a nickname the history does not map to this table (possible only when one nickname names
-       two tables or is also a table name, see rr_ok) is outside the model *)
-    if match nick with Some n => negb (nick_maps_to (hist (rnd s)) n table) | None => false end
-    then Err Unsupported
-    else Ok (upd_rnd s (mkR (save_row (hist (rnd s)) table nick id) (draws (rnd s))))
-  else if match nick with Some n => in_hist n | None => false end
-       then Err Unsupported      (* INSERT into a history table that was never created *)
-       else Ok s.
+  if existsb (String.eqb table) (hist_tables e)
+  then Ok (upd_rnd s (mkR (save_row (hist (rnd s)) table nick id) (draws (rnd s))))
+  else Ok s.
 
 (* StandardFuncs.random_reference(to) + RandomReferenceContext.next with random.randint:
    randint(lo, hi) = lo + _randbelow(hi - lo + 1); the drawn number comes from the recorded stream *)
@@ -836,13 +827,11 @@ Definition mk_hist_names (stmts : list stmt) : list (string * string) :=
   fold_left (fun acc nt => assign (fst nt) (snd nt) acc) (mk_name_slots stmts)
             (fold_left (fun acc nt => assign (fst nt) (snd nt) acc) (all_nick_pairs stmts) []).
 
-(* the model does not decide the dictionary-order questions that arise when one nickname
-   names two tables or is also the name of a table *)
+(* the model does not decide the dictionary-order question that arises when one nickname
+   names two tables *)
 Definition nick_unambiguous (stmts : list stmt) : bool :=
   let ps := all_nick_pairs stmts in
-  let tables := map t_table (all_templates stmts) in
-  forallb (fun nt => forallb (fun mu => negb (String.eqb (fst nt) (fst mu)) || String.eqb (snd nt) (snd mu)) ps
-                     && negb (existsb (String.eqb (fst nt)) tables)) ps.
+  forallb (fun nt => forallb (fun mu => negb (String.eqb (fst nt) (fst mu)) || String.eqb (snd nt) (snd mu)) ps) ps.
 
 Fixpoint dedup (l : list string) : list string :=
   match l with [] => [] | x :: r => if existsb (String.eqb x) r then dedup r else x :: dedup r end.
@@ -856,7 +845,7 @@ Definition mk_hist_tables (stmts : list stmt) : list string :=
    that recipes without random_reference have a constant history *)
 Definition init_hist (e : env) (ids0 : list (string * Z)) : rh :=
   match hist_tables e with
-  | [] => mkRh [] [] [] [] []
+  | [] => mkRh [] [] [] [] [] []
   | _ => rh_init ids0 (hist_names e)
   end.
 
@@ -963,11 +952,8 @@ Definition resave (e : env) (c : cont) (h0 : rh) : result rh :=
   let saved_ids := map (fun r => snd r) nick_rows in
   let rows := nick_rows ++ filter (fun r => negb (existsb (Z.eqb (snd r)) saved_ids)) table_rows in
   let rows := filter (fun r => existsb (String.eqb (fst (fst r))) (hist_tables e)) rows in
-  if negb (forallb (fun r => match snd (fst r) with
-                             | Some n => nick_maps_to h0 n (fst (fst r)) | None => true end) rows)
-  then Err Unsupported else
   let h1 := fold_left (fun h r => save_row h (fst (fst r)) (snd (fst r)) (snd r)) rows h0 in
-  Ok (mkRh (tc h1) (nc h1) (fold_left (fun l nv => assignZ (fst nv) (snd nv) l) (nc h1) (lc h1)) (n2t h1) (hrows h1)).
+  Ok (mkRh (tc h1) (nc h1) (lc h1) (nc h1) (n2t h1) (hrows h1)).
 
 Definition load (e : env) (c : cont) : result st :=
   do h <- match hist_tables e with
